@@ -178,10 +178,9 @@ let spec_display w (a : sp) =
   end
 
 (* ------------------------------------------------------------------ operations over one field *)
-let run_one (type f) (f : f fld) (op : string) (g : string list list) : string =
+let run_core (type f) (f : f fld) (op : string) (g : string list list) (r : int -> f list) (s : int -> sp) : string =
   let o = f.o and w = f.w in
   let grp i = List.nth g i in
-  let r i = raw f (grp i) and s i = spec_of f (grp i) in
   let int0 () = int_of_string (List.hd (grp 0)) in
   let z0 () = ZZ.of_string (List.hd (grp 0)) in
   let mulcheck m a b = if Array.length a * Array.length b * (w * w) > big_threshold then check_poly_sampled f m a b
@@ -311,6 +310,84 @@ let run_one (type f) (f : f fld) (op : string) (g : string list list) : string =
          | _ -> "ERR") in
       check_str m spec
   | _ -> "UNKNOWN-OP"
+
+
+(* a polynomial as an operation leaves it: the model's stored list (None = panic) and the specification's value *)
+let produce (type f) (f : f fld) (prod : string) (g : string list list) : f list option * sp =
+  let o = f.o and w = f.w in
+  let grp i = List.nth g i in
+  let r i = raw f (grp i) and s i = spec_of f (grp i) in
+  let int0 () = int_of_string (List.hd (grp 0)) in
+  match prod with
+  | "aa" -> (Some (poly_add_assign o (r 0) (r 1)), sp_add w (s 0) (s 1))
+  | "add" -> (Some (poly_add o (r 0) (r 1)), sp_add w (s 0) (s 1))
+  | "sub" -> (Some (poly_sub o (r 0) (r 1)), sp_sub w (s 0) (s 1))
+  | "neg" -> (Some (poly_neg o (r 0)), sp_norm (Array.map se_neg (s 0)))
+  | "smm" -> (Some (poly_scalar_mul_mut o (r 0) (elem f (grp 1))), sp_scalar w (s 0) (selem (grp 1)))
+  | "smul" -> (Some (poly_scalar_mul o (r 0) (elem f (grp 1))), sp_scalar w (s 0) (selem (grp 1)))
+  | "scale" ->
+      let al = selem (grp 1) in
+      let pw = ref (se_one w) in
+      (Some (poly_scale o (r 0) (elem f (grp 1))),
+       sp_norm (Array.map (fun c -> let v = se_mul c !pw in pw := se_mul !pw al; v) (s 0)))
+  | "shift" ->
+      let k = int0 () in
+      let a = s 1 in
+      (Some (poly_shift_coefficients o (r 1) (zi k)), if Array.length a = 0 then [||] else Array.append (Array.make k (se_zero w)) a)
+  | "mul" -> (Some (poly_mul o (r 0) (r 1)), sp_mul w (s 0) (s 1))
+  | "multiply" -> (poly_multiply o f.ntt f.intt (r 0) (r 1), sp_mul w (s 0) (s 1))
+  | "deriv" ->
+      let a = s 0 in
+      (Some (poly_formal_derivative o (r 0)),
+       sp_norm (Array.init (max 0 (Array.length a - 1)) (fun i -> se_mul (se_of_int w (zi (i + 1))) a.(i + 1))))
+  | "modx" ->
+      let k = int0 () in
+      let a = s 1 in
+      (Some (poly_mod_x_to_the_n (r 1) (zi k)), sp_norm (Array.sub a 0 (min k (Array.length a))))
+  | "truncate" ->
+      let k = int0 () in
+      let a = s 1 in
+      let n = Array.length a in
+      (poly_truncate o (r 1) (zi k), if n <= k + 1 then a else sp_norm (Array.sub a (n - (k + 1)) (k + 1)))
+  | "new" -> (Some (poly_new (r 0)), s 0)
+  | _ -> failwith "unknown producer"
+
+let rec take n l = if n = 0 then [] else match l with [] -> [] | x :: t -> x :: take (n - 1) t
+let rec drop n l = if n = 0 then l else match l with [] -> [] | _ :: t -> drop (n - 1) t
+
+let run_one (type f) (f : f fld) (op : string) (g : string list list) : string =
+  if op = "then" then begin
+    match List.hd g with
+    | [prod; n; obs] ->
+        let n = int_of_string n in
+        let (m, sp) = produce f prod (take n (List.tl g)) in
+        let og = drop n (List.tl g) in
+        (match m with
+         | None -> "SPECDIFF producer model=PANIC"
+         | Some ml ->
+             let at i = (List.nth og i = ["@"]) in
+             run_core f obs og (fun i -> if at i then ml else raw f (List.nth og i))
+               (fun i -> if at i then sp else spec_of f (List.nth og i)))
+    | _ -> "BAD-CASE"
+  end else if op = "same" then begin
+    (* the same object on both sides: to the model and the specification, two equal lists *)
+    match g with
+    | [[sub]; pg] ->
+        let g' = [pg; pg] in
+        run_core f sub g' (fun i -> raw f (List.nth g' i)) (fun i -> spec_of f (List.nth g' i))
+    | _ -> "BAD-CASE"
+  end else if op = "alias" then begin
+    (* two prefixes of one buffer: to the model and the specification they are just two lists *)
+    match g with
+    | [[sub; i; j]; (d :: vs)] ->
+        let (_, k) = storage d in
+        let all = vs @ rep "0" (k * f.w) in
+        let pre n = "b0" :: take (n * f.w) all in
+        let g' = [pre (int_of_string i); pre (int_of_string j)] in
+        run_core f sub g' (fun i -> raw f (List.nth g' i)) (fun i -> spec_of f (List.nth g' i))
+    | _ -> "BAD-CASE"
+  end else
+    run_core f op g (fun i -> raw f (List.nth g i)) (fun i -> spec_of f (List.nth g i))
 
 (* ------------------------------------------------------------------ mixed fields: result is always in the extension field *)
 let run_mixed (type a b) (f1 : a fld) (f2 : b fld) (mul12 : a -> b -> xfe) (op : string) (g : string list list) : string =
